@@ -79,13 +79,14 @@ func runC14(c *Ctx) {
 			ok := arg == "fn_2" || arg == "fn"
 			r.Check("C14-B3", u.Name+": removes a file listed from the data directory, not from the checkpoint", u.Pos(s.Pos), ok, "argument "+arg)
 		}
+		// (locals defined once by pure calls print as their definitions: matchName, dst)
 		nl := u.Match(an.LocalStore("nameList"))
-		r.Check("C14-B3", u.Name+": the removal list is the data directory listing", "", len(nl) == 1 && nl[0].Tuple != nil && u.C.Term(nl[0].Tuple) == "filepath.Glob(matchName)", "")
-		r.StoreValues("C14-B3", u, an.LocalStore("matchName"), []string{"path.Join(recv.GetDataDir(), \"*\")"}, 1)
+		r.Check("C14-B3", u.Name+": the removal list is the data directory listing", "", len(nl) == 1 && nl[0].Tuple != nil && u.C.Term(nl[0].Tuple) == "filepath.Glob(path.Join(recv.GetDataDir(), \"*\"))", "")
 		for _, cp := range u.Match(an.Call("common.CopyFileForHardLink", "common.CopyFile")) {
-			r.Check("C14-B3", u.Name+": copies from the checkpoint into the data directory", u.Pos(cp.Pos), u.ArgTerm(cp, 1) == "dst" && strings.HasPrefix(u.ArgTerm(cp, 0), "fn"), "")
+			src := u.ArgTerm(cp, 0)
+			r.Check("C14-B3", u.Name+": copies from the checkpoint into the data directory", u.Pos(cp.Pos),
+				strings.HasPrefix(src, "fn") && u.ArgTerm(cp, 1) == "path.Join(recv.GetDataDir(), path.Base("+src+"))", "copies "+src+" to "+u.ArgTerm(cp, 1))
 		}
-		r.StoreValues("C14-B3", u, an.LocalStore("dst"), []string{"path.Join(recv.GetDataDir(), path.Base(fn_3))"}, 1)
 		// B5
 		closeE := an.Call("rockredis.(*RockDB).closeEng")
 		r.Order("C14-B5", u, an.Call("os.RemoveAll"), []an.M{closeE}, an.OrderOpts{Min: 1})
@@ -305,7 +306,7 @@ func runC14(c *Ctx) {
 	if u := c.unit("C14-B4", "rockredis.purgeOldCheckpoint"); u != nil {
 		r.Guard("C14-B4", u, an.Call("os.RemoveAll"), "!(sindex >= p2)", an.GuardOpts{Min: 1})
 		sd := u.Match(an.LocalStore("sindex"))
-		r.Check("C14-B4", "purgeOldCheckpoint: the compared index is parsed from the checkpoint directory name", "", len(sd) == 1 && sd[0].Tuple != nil && strings.HasPrefix(u.C.Term(sd[0].Tuple), "strconv.ParseUint(subs[1], 16"), "")
+		r.Check("C14-B4", "purgeOldCheckpoint: the compared index is parsed from the checkpoint directory name", "", len(sd) == 1 && sd[0].Tuple != nil && strings.HasPrefix(u.C.Term(sd[0].Tuple), "strconv.ParseUint(strings.Split(path.Base(rockredis.CheckpointSortNames(checkpointList)[(i + p0)]), \"-\")[1], 16"), "")
 	}
 	for _, sw := range c.W.AllSites(an.Call("rockredis.purgeOldCheckpoint"), "purgeOldCheckpoint", nil) {
 		a0, a2 := sw.U.ArgTerm(sw.S, 1), sw.U.ArgTerm(sw.S, 2)
